@@ -21,7 +21,7 @@ from collections import Counter
 from concurrent.futures import ProcessPoolExecutor, as_completed
 
 ROOT = os.path.dirname(os.path.dirname(os.path.abspath(__file__)))
-OUT = os.path.join(ROOT, 'out')
+OUT = os.environ.get('GPSIM_OUT') or os.path.join(ROOT, 'out')
 EVID = os.path.join(ROOT, 'evidence')
 KNOWN = os.path.join(ROOT, 'known_findings.json')
 
